@@ -9,11 +9,10 @@
 package c09
 
 import (
+	"strconv"
 	"strings"
 
 	"pgregory.net/rapid"
-
-	"verifharness/internal/rp"
 )
 
 // Edit records one applied operator.
@@ -42,7 +41,7 @@ func pickStmt(g *gen, d *Doc, pred func(*Stmt) bool) (int, bool) {
 	if len(idx) == 0 {
 		return -1, false
 	}
-	return rp.Pick(g.rt, "at", idx...), true
+	return pick(g.rt, "at", idx...), true
 }
 
 func nonSkip(s *Stmt) bool { return s.isNonSkip() }
@@ -51,7 +50,7 @@ func isSkip(s *Stmt) bool  { return s.isSkip() }
 // way is a labelled variant of an operator.
 type way struct{ name, val string }
 
-func pickWay(g *gen, ws ...way) way { return rp.Pick(g.rt, "way", ws...) }
+func pickWay(g *gen, ws ...way) way { return pick(g.rt, "way", ws...) }
 
 // stmtOp builds an operator that edits one statement chosen among those matching pred.
 func stmtOp(name, kind string, nd need, pred func(*Stmt) bool, f func(g *gen, d *Doc, s *Stmt) string) operator {
@@ -87,15 +86,15 @@ func badStore(g *gen, rule string) (Store, string) {
 
 // putStore places a bad store: as the only store, instead of one store, or in addition.
 func putStore(g *gen, s *Stmt, b Store) string {
-	switch p := rapid.IntRange(0, 2).Draw(g.rt, "place"); {
+	switch p := intRange(g.rt, "place", 0, 2); {
 	case p == 0 || len(s.Stores) == 0:
 		s.Stores = []Store{b}
 		return "only"
 	case p == 1:
-		s.Stores[rapid.IntRange(0, len(s.Stores)-1).Draw(g.rt, "placeAt")] = b
+		s.Stores[intRange(g.rt, "placeAt", 0, len(s.Stores)-1)] = b
 		return "replace"
 	default:
-		at := rapid.IntRange(0, len(s.Stores)).Draw(g.rt, "placeAt")
+		at := intRange(g.rt, "placeAt", 0, len(s.Stores))
 		s.Stores = append(s.Stores[:at:at], append([]Store{b}, s.Stores[at:]...)...)
 		return "insert"
 	}
@@ -105,15 +104,15 @@ func putStore(g *gen, s *Stmt, b Store) string {
 // always replaced (otherwise the edit would also break the wildcard rule).
 func putIdent(g *gen, s *Stmt, b Ident) string {
 	lone := len(s.IDs) == 1 && s.IDs[0].Text == wildcard
-	switch p := rapid.IntRange(0, 2).Draw(g.rt, "place"); {
+	switch p := intRange(g.rt, "place", 0, 2); {
 	case p == 0 || len(s.IDs) == 0 || lone:
 		s.IDs = []Ident{b}
 		return "only"
 	case p == 1:
-		s.IDs[rapid.IntRange(0, len(s.IDs)-1).Draw(g.rt, "placeAt")] = b
+		s.IDs[intRange(g.rt, "placeAt", 0, len(s.IDs)-1)] = b
 		return "replace"
 	default:
-		at := rapid.IntRange(0, len(s.IDs)).Draw(g.rt, "placeAt")
+		at := intRange(g.rt, "placeAt", 0, len(s.IDs))
 		s.IDs = append(s.IDs[:at:at], append([]Ident{b}, s.IDs[at:]...)...)
 		return "insert"
 	}
@@ -121,15 +120,15 @@ func putIdent(g *gen, s *Stmt, b Ident) string {
 
 func putScope(g *gen, s *Stmt, b Scope) string {
 	lone := len(s.Scopes) == 1 && s.Scopes[0].Text == wildcard
-	switch p := rapid.IntRange(0, 2).Draw(g.rt, "place"); {
+	switch p := intRange(g.rt, "place", 0, 2); {
 	case p == 0 || len(s.Scopes) == 0 || lone:
 		s.Scopes = []Scope{b}
 		return "only"
 	case p == 1:
-		s.Scopes[rapid.IntRange(0, len(s.Scopes)-1).Draw(g.rt, "placeAt")] = b
+		s.Scopes[intRange(g.rt, "placeAt", 0, len(s.Scopes)-1)] = b
 		return "replace"
 	default:
-		at := rapid.IntRange(0, len(s.Scopes)).Draw(g.rt, "placeAt")
+		at := intRange(g.rt, "placeAt", 0, len(s.Scopes))
 		s.Scopes = append(s.Scopes[:at:at], append([]Scope{b}, s.Scopes[at:]...)...)
 		return "insert"
 	}
@@ -150,14 +149,14 @@ func badIdent(g *gen, rule string) (Ident, string) {
 	case "dn-unparsable":
 		full := g.render(d)
 		wy := pickWay(g,
-			way{"attribute-without-equals", full + "," + rp.Pick(g.rt, "bare", "CN", "OU", "x")},
+			way{"attribute-without-equals", full + "," + pick(g.rt, "bare", "CN", "OU", "x")},
 			way{"first-attribute-without-equals", "CN," + full},
 			way{"empty-rdn", g.render(dn{rdns: d.rdns[:1]}) + ",," + g.render(dn{rdns: d.rdns[1:]})},
 			way{"leading-comma", "," + full},
 			way{"dangling-backslash", full + `\`},
 			way{"bad-hex-escape", full + `\zz`},
 			way{"short-hex-escape", full + `\4`},
-			way{"no-attributes", rp.Pick(g.rt, "junk", "acme", "US WA acme", "C;ST;O")})
+			way{"no-attributes", pick(g.rt, "junk", "acme", "US WA acme", "C;ST;O")})
 		text, w = pre+wy.val, wy.name
 	case "dn-missing-c", "dn-missing-st", "dn-missing-o":
 		drop := map[string]string{"dn-missing-c": "C", "dn-missing-st": "ST", "dn-missing-o": "O"}[rule]
@@ -170,7 +169,7 @@ func badIdent(g *gen, rule string) (Ident, string) {
 		}
 		text = pre + g.render(k)
 	case "dn-duplicate-attribute":
-		i := rapid.IntRange(0, len(d.attrs)-1).Draw(g.rt, "dupAttr")
+		i := intRange(g.rt, "dupAttr", 0, len(d.attrs)-1)
 		dup := rdn{d.rdns[i].typ, d.rdns[i].text}
 		w = "same-value"
 		if chance(g.rt, "dupOtherValue", 2) {
@@ -181,17 +180,17 @@ func badIdent(g *gen, rule string) (Ident, string) {
 			dup.typ = map[string]string{"S": "ST", "ST": "S"}[dup.typ]
 			w += "-alias"
 		}
-		at := rapid.IntRange(0, len(d.rdns)).Draw(g.rt, "dupAt")
+		at := intRange(g.rt, "dupAt", 0, len(d.rdns))
 		k := dn{rdns: append(d.rdns[:at:at], append([]rdn{dup}, d.rdns[at:]...)...)}
 		text = pre + g.render(k)
 	case "dn-multivalued-rdn":
 		// join two neighbouring attributes with '+'
-		i := rapid.IntRange(0, len(d.rdns)-2).Draw(g.rt, "plusAt")
+		i := intRange(g.rt, "plusAt", 0, len(d.rdns)-2)
 		var parts []string
 		for j, r := range d.rdns {
 			p := r.typ + "=" + r.text
 			if j == i+1 {
-				parts[len(parts)-1] += rp.Pick(g.rt, "plus", "+", " + ") + p
+				parts[len(parts)-1] += pick(g.rt, "plus", "+", " + ") + p
 			} else {
 				parts = append(parts, p)
 			}
@@ -199,7 +198,7 @@ func badIdent(g *gen, rule string) (Ident, string) {
 		text = pre + strings.Join(parts, ",")
 	case "dn-hex-value":
 		// '#' + hex is the BER form of a value, which notation does not support ("=#")
-		i := rapid.IntRange(0, len(d.rdns)-1).Draw(g.rt, "hexAttr")
+		i := intRange(g.rt, "hexAttr", 0, len(d.rdns)-1)
 		wy := pickWay(g, way{"utf8string", "#0C0141"}, way{"octetstring", "#040141"}, way{"printable", "#13024142"}, way{"truncated", "#0401"}, way{"odd", "#041"}, way{"not-hex", "#zz"})
 		d.rdns[i].text, w = wy.val, wy.name
 		text = pre + g.render(d)
@@ -240,16 +239,16 @@ func buildOperators() []operator {
 	ops := []operator{
 		{name: "version-empty", apply: func(g *gen, d *Doc) (string, int, bool) { d.Version = ""; return "", -1, true }},
 		{name: "version-unsupported", apply: func(g *gen, d *Doc) (string, int, bool) {
-			d.Version = rp.Pick(g.rt, "version", "2.0", "1", "1.0.0", "1.0 ", " 1.0", "v1.0", "01.0", "1.00", "1.1", "0.1", "1,0", "1.0\n", "latest")
-			return d.Version, -1, true
+			d.Version = pick(g.rt, "version", "2.0", "1", "1.0.0", "1.0 ", " 1.0", "v1.0", "01.0", "1.00", "1.1", "0.1", "1,0", "1.0\n", "latest")
+			return strconv.Quote(d.Version), -1, true
 		}},
 		{name: "no-statements", apply: func(g *gen, d *Doc) (string, int, bool) { d.Stmts = nil; return "", -1, true }},
 		{name: "name-duplicate", need: need{stmts: 2}, apply: func(g *gen, d *Doc) (string, int, bool) {
 			if len(d.Stmts) < 2 {
 				return "", -1, false
 			}
-			i := rapid.IntRange(0, len(d.Stmts)-1).Draw(g.rt, "from")
-			j := rapid.IntRange(0, len(d.Stmts)-2).Draw(g.rt, "to")
+			i := intRange(g.rt, "from", 0, len(d.Stmts)-1)
+			j := intRange(g.rt, "to", 0, len(d.Stmts)-2)
 			if j >= i {
 				j++
 			}
@@ -271,28 +270,28 @@ func buildOperators() []operator {
 			return w.name + "=" + w.val
 		}),
 		stmtOp("override-integrity", "", ns, nonSkip, func(g *gen, d *Doc, s *Stmt) string {
-			a := rp.Pick(g.rt, "action", "log", "enforce", "skip")
+			a := pick(g.rt, "action", "log", "enforce", "skip")
 			s.setOverride("integrity", a)
 			return a
 		}),
 		stmtOp("override-skip-non-revocation", "", ns, nonSkip, func(g *gen, d *Doc, s *Stmt) string {
-			k := rp.Pick(g.rt, "type", "authenticity", "authenticTimestamp", "expiry")
+			k := pick(g.rt, "type", "authenticity", "authenticTimestamp", "expiry")
 			s.setOverride(k, "skip")
 			return k
 		}),
 		stmtOp("override-unknown-type", "", ns, nonSkip, func(g *gen, d *Doc, s *Stmt) string {
-			k := rp.Pick(g.rt, "type", "Expiry", "", "revocations", "integrity ", "all", "Integrity", "authenticTimeStamp", "REVOCATION", "timestamp")
-			s.setOverride(k, rp.Pick(g.rt, "action", "log", "enforce"))
-			return k
+			k := pick(g.rt, "type", "Expiry", "", "revocations", "integrity ", "all", "Integrity", "authenticTimeStamp", "REVOCATION", "timestamp")
+			s.setOverride(k, pick(g.rt, "action", "log", "enforce"))
+			return strconv.Quote(k)
 		}),
 		stmtOp("override-unknown-action", "", ns, nonSkip, func(g *gen, d *Doc, s *Stmt) string {
-			a := rp.Pick(g.rt, "action", "warn", "", "Skip", "Log", "ENFORCE", "enforced", "true", "log ", "audit")
-			s.setOverride(rp.Pick(g.rt, "type", "authenticity", "authenticTimestamp", "expiry", "revocation"), a)
-			return a
+			a := pick(g.rt, "action", "warn", "", "Skip", "Log", "ENFORCE", "enforced", "true", "log ", "audit")
+			s.setOverride(pick(g.rt, "type", "authenticity", "authenticTimestamp", "expiry", "revocation"), a)
+			return strconv.Quote(a)
 		}),
 		stmtOp("verify-timestamp-unknown", "", one, all, func(g *gen, d *Doc, s *Stmt) string {
-			s.VT = rp.Pick(g.rt, "vt", "never", "Always", "aftercertexpiry", "always ", "true", "AfterCertExpiry", "afterCertExpired", "0")
-			return s.VT
+			s.VT = pick(g.rt, "vt", "never", "Always", "aftercertexpiry", "always ", "true", "AfterCertExpiry", "afterCertExpired", "0")
+			return strconv.Quote(s.VT)
 		}),
 		stmtOp("nonskip-no-stores", "", ns, nonSkip, func(g *gen, d *Doc, s *Stmt) string { s.Stores = nil; return "" }),
 		stmtOp("nonskip-no-identities", "", ns, nonSkip, func(g *gen, d *Doc, s *Stmt) string { s.IDs = nil; return "" }),
@@ -302,7 +301,7 @@ func buildOperators() []operator {
 			if len(s.IDs) == 0 || (len(s.IDs) == 1 && s.IDs[0].Text == wildcard) {
 				var other Ident
 				w := "wildcard+x509"
-				switch rapid.IntRange(0, 2).Draw(g.rt, "company") {
+				switch intRange(g.rt, "company", 0, 2) {
 				case 0:
 					other = g.x509Ident(g.newDN("W"))
 				case 1:
@@ -316,7 +315,7 @@ func buildOperators() []operator {
 				}
 				return w
 			}
-			at := rapid.IntRange(0, len(s.IDs)).Draw(g.rt, "placeAt")
+			at := intRange(g.rt, "placeAt", 0, len(s.IDs))
 			s.IDs = append(s.IDs[:at:at], append([]Ident{{Text: wildcard}}, s.IDs[at:]...)...)
 			return "wildcard-inserted"
 		}),
@@ -347,7 +346,23 @@ func buildOperators() []operator {
 			b, w := badScope(g)
 			return w + "/" + putScope(g, s, b)
 		}),
-		stmtOp("wildcard-scope-with-company", "oci", one, all, func(g *gen, d *Doc, s *Stmt) string {
+		operator{name: "wildcard-scope-with-company", kind: "oci", need: one, apply: func(g *gen, d *Doc) (string, int, bool) {
+			// the statement that holds the wildcard if there is one (a second statement with a
+			// wildcard would also break the one-statement-per-scope rule), else any statement
+			i, ok := pickStmt(g, d, func(s *Stmt) bool {
+				for _, sc := range s.Scopes {
+					if sc.Text == wildcard {
+						return true
+					}
+				}
+				return false
+			})
+			if !ok {
+				if i, ok = pickStmt(g, d, nil); !ok {
+					return "", -1, false
+				}
+			}
+			s := &d.Stmts[i]
 			if len(s.Scopes) == 0 || (len(s.Scopes) == 1 && s.Scopes[0].Text == wildcard) {
 				w := "wildcard+path"
 				s.Scopes = []Scope{{Text: wildcard}, g.scope()}
@@ -357,12 +372,12 @@ func buildOperators() []operator {
 				if rapid.Bool().Draw(g.rt, "swap") {
 					s.Scopes[0], s.Scopes[1] = s.Scopes[1], s.Scopes[0]
 				}
-				return w
+				return w, i, true
 			}
-			at := rapid.IntRange(0, len(s.Scopes)).Draw(g.rt, "placeAt")
+			at := intRange(g.rt, "placeAt", 0, len(s.Scopes))
 			s.Scopes = append(s.Scopes[:at:at], append([]Scope{{Text: wildcard}}, s.Scopes[at:]...)...)
-			return "wildcard-inserted"
-		}),
+			return "wildcard-inserted", i, true
+		}},
 		operator{name: "scope-shared", kind: "oci", need: need{stmts: 2}, apply: func(g *gen, d *Doc) (string, int, bool) {
 			if len(d.Stmts) < 2 {
 				return "", -1, false
@@ -371,11 +386,11 @@ func buildOperators() []operator {
 			if !ok {
 				return "", -1, false
 			}
-			j := rapid.IntRange(0, len(d.Stmts)-2).Draw(g.rt, "to")
+			j := intRange(g.rt, "to", 0, len(d.Stmts)-2)
 			if j >= i {
 				j++
 			}
-			sc := rp.Pick(g.rt, "which", d.Stmts[i].Scopes...)
+			sc := pick(g.rt, "which", d.Stmts[i].Scopes...)
 			t := &d.Stmts[j]
 			w := "path"
 			if sc.Text == wildcard {
@@ -391,7 +406,7 @@ func buildOperators() []operator {
 					return w + "/already", j, true
 				}
 			}
-			at := rapid.IntRange(0, len(t.Scopes)).Draw(g.rt, "placeAt")
+			at := intRange(g.rt, "placeAt", 0, len(t.Scopes))
 			t.Scopes = append(t.Scopes[:at:at], append([]Scope{sc}, t.Scopes[at:]...)...)
 			return w + "/insert", j, true
 		}},
@@ -416,7 +431,7 @@ func buildOperators() []operator {
 			}
 			last := -1
 			for have < 2 || (len(cand) > 0 && chance(g.rt, "third", 4)) {
-				k := rapid.IntRange(0, len(cand)-1).Draw(g.rt, "globalAt")
+				k := intRange(g.rt, "globalAt", 0, len(cand)-1)
 				last = cand[k]
 				d.Stmts[last].Global = true
 				cand = append(cand[:k:k], cand[k+1:]...)
@@ -453,7 +468,7 @@ func buildOperators() []operator {
 	// shapes the statement is silent about: exercised (no crash, level invariant), never judged
 	silent := []operator{
 		stmtOp("id-no-colon", "", ns, nonSkip, func(g *gen, d *Doc, s *Stmt) string {
-			return putIdent(g, s, Ident{Text: rp.Pick(g.rt, "text", "x509subject", "foobar", "C=US,ST=WA,O=acme", "x509.subject"), Silent: "id-no-colon"})
+			return putIdent(g, s, Ident{Text: pick(g.rt, "text", "x509subject", "foobar", "C=US,ST=WA,O=acme", "x509.subject"), Silent: "id-no-colon"})
 		}),
 		stmtOp("id-empty-string", "", ns, nonSkip, func(g *gen, d *Doc, s *Stmt) string {
 			return putIdent(g, s, Ident{Text: "", Silent: "id-empty-string"})
@@ -463,12 +478,12 @@ func buildOperators() []operator {
 		}),
 		stmtOp("store-duplicate", "", ns, nonSkip, func(g *gen, d *Doc, s *Stmt) string {
 			if len(s.Stores) > 0 {
-				s.Stores = append(s.Stores, rp.Pick(g.rt, "which", s.Stores...))
+				s.Stores = append(s.Stores, pick(g.rt, "which", s.Stores...))
 			}
 			return ""
 		}),
 		stmtOp("scope-duplicate-within-statement", "oci", one, func(s *Stmt) bool { return len(s.Scopes) > 0 && s.Scopes[0].Text != wildcard }, func(g *gen, d *Doc, s *Stmt) string {
-			s.Scopes = append(s.Scopes, rp.Pick(g.rt, "which", s.Scopes...))
+			s.Scopes = append(s.Scopes, pick(g.rt, "which", s.Scopes...))
 			return ""
 		}),
 	}
@@ -496,7 +511,7 @@ func addOverlap(g *gen, s *Stmt, name string) string {
 		putIdent(g, s, g.x509Ident(fresh))
 		base = fresh.attrs
 	} else {
-		base = s.IDs[rp.Pick(g.rt, "base", with...)].DN
+		base = s.IDs[pick(g.rt, "base", with...)].DN
 	}
 	// a new rendering of the base attributes (values escaped minimally)
 	var nd dn
@@ -514,7 +529,7 @@ func addOverlap(g *gen, s *Stmt, name string) string {
 		}
 		if len(optional) > 0 && rapid.Bool().Draw(g.rt, "narrower") {
 			// drop one optional attribute: the new identity is a strict subset
-			k := rp.Pick(g.rt, "drop", optional...)
+			k := pick(g.rt, "drop", optional...)
 			nd.attrs = append(nd.attrs[:k:k], nd.attrs[k+1:]...)
 			nd.rdns = append(nd.rdns[:k:k], nd.rdns[k+1:]...)
 			w = "new-is-subset"
@@ -539,7 +554,7 @@ func addOverlap(g *gen, s *Stmt, name string) string {
 		}
 	}
 	id := g.x509Ident(g.shuffled(nd))
-	at := rapid.IntRange(0, len(s.IDs)).Draw(g.rt, "placeAt")
+	at := intRange(g.rt, "placeAt", 0, len(s.IDs))
 	s.IDs = append(s.IDs[:at:at], append([]Ident{id}, s.IDs[at:]...)...)
 	return w
 }
@@ -557,11 +572,16 @@ func escapeValue(v string) string {
 	return b.String()
 }
 
+var opWeights = map[string]int{"scope-invalid": 4, "store-bad-name": 2, "store-unknown-type": 2, "dn-unparsable": 2, "level-unknown": 2}
+
 func opsFor(kind string, silent bool) []operator {
 	var out []operator
 	for _, o := range operators {
 		if (o.kind == "" || o.kind == kind) && o.silent == silent {
 			out = append(out, o)
+			for i := 1; i < opWeights[o.name]; i++ {
+				out = append(out, o)
+			}
 		}
 	}
 	return out
